@@ -73,6 +73,10 @@ def adversarial(rng, L):
     L['a'] = lg.gen_param(rng, n, -1, 1, 2); L['c'] = lg.gen_param(rng, n, -2, 2, 2)
   elif cls == 'SDevice':
     L['c1'] = dy(rng, F(1, 4), 2, 2); L['c2'] = L['c1'] * lg.pick(rng, [F(1), F(3, 2), F(2)]); L['c3'] = dy(rng, -1, 2, 2)
+    if rng.random() < 0.5:
+      # c1 never passed (it stays at its class default 1.0) and c2 above it, in the constructor call or through the setter afterwards
+      L['c1'], L['c2'], L['c3'], L['omit'] = F(1), lg.pick(rng, [F(3, 2), F(2), F(3)]), F(0), ['c1']
+      L['post_set'] = ['c2'] if rng.random() < 0.5 else []
   elif cls == 'TDevice':
     L['c'] = lg.gen_param(rng, n, -2, 2, 2)
   elif cls == 'GDevice':
